@@ -45,8 +45,8 @@ MUTANTS = [
      "rerouted interruption record does not name its destination"),
     ("M07", ["C04", "C05"], N, "        for svr in all_servers:\n            if not svr.busy:\n                return svr", "        for svr in all_servers:\n            if not svr.busy or (svr.cust and svr.cust.is_blocked and len(all_servers) > 2):\n                return svr",
      "find_free_server hands out a server held by a blocked customer (3+ servers)"),
-    ("M08", ["C04"], N, "        server.busy_time = self.increment_time(server.busy_time, individual.exit_date - individual.service_start_date)",
-     "        server.busy_time = self.increment_time(server.busy_time, individual.service_end_date - individual.service_start_date)", "busy time excludes blocked time"),
+    ("M08", ["C04"], N, "        server.busy_time = self.increment_time(server.busy_time, individual.exit_date - counted_from)",
+     "        server.busy_time = self.increment_time(server.busy_time, (individual.service_end_date if individual.service_end_date is not False else individual.exit_date) - counted_from)", "busy time excludes blocked time"),
     ("M09", ["C05", "C07"], N, "            node_to_receive_from.release(individual_to_receive, self)\n\n    def reset_class_change",
      "            node_to_receive_from.release(individual_to_receive, self, reroute=individual_to_receive.priority_class > 0)\n\n    def reset_class_change",
      "unblocked low-priority customer leaves without its server starting the next service (and without a record)"),
@@ -107,12 +107,12 @@ MUTANTS = [
      "deadlock check skipped when the next event is an arrival (flag kept, detection late)"),
     ("M37", ["C19"], P, "                share_completed = (self.ps_threshold * current_period) / max(self.last_occupancy, self.ps_threshold)", "                share_completed = (self.ps_threshold * current_period) / max(next_occupancy, self.ps_threshold)",
      "work done in the past period computed with the new occupancy"),
-    ("M38", ["C19"], P, "        if self.number_of_individuals >= self.ps_capacity:\n            ind = self.all_individuals[self.ps_capacity - 1]", "        if self.number_of_individuals > self.ps_capacity:\n            ind = self.all_individuals[self.ps_capacity - 1]",
+    ("M38", ["C19"], P, "        if self.number_of_individuals >= self.ps_capacity:\n            ind = min(", "        if self.number_of_individuals > self.ps_capacity:\n            ind = min(",
      "PS: waiting customer not admitted when exactly `capacity` remain"),
     ("M39", ["C20"], E, "        return Decimal(str(original)) + Decimal(str(increment))\n\n    def get_service_time", "        return Decimal(str(original)) + Decimal(increment)\n\n    def get_service_time",
      "ExactNode.increment_time converts the increment from its binary value"),
-    ("M40", ["C20"], E, "        return Decimal(\n            str(\n                self.simulation.inter_arrival_times[nd][clss]._sample(\n                    self.simulation.current_time\n                )\n            )\n        )",
-     "        return Decimal(\n                self.simulation.inter_arrival_times[nd][clss]._sample(\n                    self.simulation.current_time\n                )\n        )", "exact inter-arrival times converted from binary floats"),
+    ("M40", ["C20"], E, "        return +Decimal(\n            str(\n                self.simulation.inter_arrival_times[nd][clss]._sample(\n                    self.simulation.current_time\n                )\n            )\n        )",
+     "        return +Decimal(\n                self.simulation.inter_arrival_times[nd][clss]._sample(\n                    self.simulation.current_time\n                )\n        )", "exact inter-arrival times converted from binary floats"),
     ("M41", ["C10", "C02"], N, "        if (isinstance(s, float) or isinstance(s, int)) and s >= 0:", "        if (isinstance(s, float) or isinstance(s, int)) and s >= 0:", "(placeholder)"),
     ("M42", ["C06"], N, "        self.node_capacity = node.queueing_capacity + self.c", "        self.node_capacity = node.queueing_capacity + max(self.c, 1)", "zero-server nodes get one phantom place"),
     ("M43", ["C01", "C14"], A, "            if rnd_num < next_node.baulking_functions", "            if self.simulation.number_of_priority_classes > 1 and rnd_num == rnd_num and False:\n                pass\n            if rnd_num < next_node.baulking_functions", "(neutral)"),
